@@ -587,18 +587,34 @@ func (w *MarkdownWriter) wrapText(text string, maxLength int) string {
 	return result.String()
 }
 
-// wrapWords 按空白把文本分成单词；反引号中的代码片段（可能含空格）作为一个整体，不在其中换行
+// wrapWords 按空白把文本分成单词；反引号中的代码片段（可能含空格）作为一个整体，不在其中换行。
+// 代码片段以一串反引号开始，到下一串同样长度的反引号结束（内容含反引号时分隔符是更长的一串），
+// 所以按串而不是按单个反引号判断是否在代码片段中：否则 "```` ``` ````" 会在分隔符后被断开，
+// 以 "````" 开头的新行会被解析为围栏代码块
 func wrapWords(text string) []string {
 	var words []string
 	var current strings.Builder
-	inCode := false
+	fence := 0 // 所在代码片段起始反引号串的长度；0 表示不在代码片段中
+	run := 0   // 正在读取的反引号串的长度
 	escaped := false
 	for _, r := range text {
-		if r == '`' && !escaped {
-			inCode = !inCode
+		if r == '`' && !(escaped && fence == 0) {
+			run++
+			current.WriteRune(r)
+			escaped = false
+			continue
 		}
-		escaped = r == '\\' && !escaped && !inCode
-		if !inCode && (r == ' ' || r == '\t' || r == '\n' || r == '\r') {
+		if run > 0 {
+			// 一串反引号读完：开始一个代码片段，或者（长度相同时）结束当前的代码片段
+			if fence == 0 {
+				fence = run
+			} else if run == fence {
+				fence = 0
+			}
+			run = 0
+		}
+		escaped = r == '\\' && !escaped && fence == 0
+		if fence == 0 && (r == ' ' || r == '\t' || r == '\n' || r == '\r') {
 			if current.Len() > 0 {
 				words = append(words, current.String())
 				current.Reset()
